@@ -247,6 +247,7 @@ func runC19(r *Run) {
 
 	// ---- frozen guards of the staking handlers (shared with C11)
 	checkLivePredicates(r, "C19.frozen-staking", fnIsFrozen, fnIsActive)
+	checkStatusWrite(r)
 	nf := boolCallG("not frozen(msg.ValidatorAddress)", false, []string{fnIsFrozen}, nil, msgF(p, "ValidatorAddress"))
 	r.guardOb("C19.frozen-staking", p.deliverEntry("STAKE"), "stake effects", callsTo(fnBalMinus, fnDelegStake, fnHandleStake), nf, "a guilty validator can stake")
 	r.guardOb("C19.frozen-staking", p.deliverEntry("UNSTAKE"), "unstake effects", callsTo(fnDelegUnstake, fnHandleUnst), nf, "a guilty validator can unstake")
